@@ -1,5 +1,5 @@
 (* C19 - Generated fuzzing inputs are always memory-safe, valid request values. *)
-From Ctap Require Import Base Schema Utf8 Typed Arb Inst Tables Limits WireP Utf8P ArbP Within ArbTy ArbTyP ObArbGenable Procs ProcTables Finite FramingP ObRequestSide FnShapes Shapes ObShapeArb Deps ObDeps ObShapeArbRequests PlainDecls ObPlainU2fRequests.
+From Ctap Require Import Base Schema Utf8 Typed Arb Inst Tables Limits WireP Utf8P ArbP Within ArbTy ArbTyP ObArbGenable PlainDecls ObRequestEnums ObPlainU2fRequests Procs ProcTables Finite FramingP ObRequestSide FnShapes Shapes ObShapeArb Deps ObDeps ObShapeArbRequests PlainDecls ObPlainU2fRequests.
 Local Open Scope string_scope.
 Local Open Scope Z_scope.
 
@@ -118,6 +118,25 @@ Theorem c19_ctap1_authenticate : forall cbs u, cbs <> [] -> bytes_ok u = true ->
   end.
 Proof. exact arb_ctap1_authenticate_valid. Qed.
 
+(* the request enumerations the property names: the variant lists regenerated from /repo are the recorded ones; the CTAP2
+   generator yields a declared variant whose payload is absent, a byte (vendor code) or a valid value of its request type *)
+Theorem c19_request_enums_unchanged : request_enums_hold raw_decls = true.
+Proof. exact generated_request_enums. Qed.
+
+Theorem c19_ctap2_request_generator : forall f u, In f all_feats -> bytes_ok u = true ->
+  match arb_ctap2_request (gen_env f) ctap2_variants u with
+  | AOk (name, v) u' =>
+      (exists ts, In (name, ts) ctap2_variants /\
+        (ts = [] /\ v = VUnit \/
+         (exists c, v = VZ c /\ 0 <= c < 256) \/
+         (exists n, ts = [TNamed n] /\ within (gen_env f) type_fuel (TNamed n) v = true))) /\ bytes_ok u' = true
+  | ANotEnough => True
+  | APanic _ => False
+  end.
+Proof.
+  apply (arb_ctap2_family_valid gen_env all_feats ctap2_variants generated_arb_genable); [discriminate|vm_compute; reflexivity].
+Qed.
+
 (* non-vacuity: a (minimal) MakeCredential request from 64 zero bytes, and a relying-party entity with id "abc", name "hi" and
    the icon marker set *)
 Example c19_ex_request :
@@ -176,3 +195,5 @@ Eval vm_compute in "ASSUMPTIONS c19_generated_types_generable". Print Assumption
 Eval vm_compute in "ASSUMPTIONS c19_spec_types_generable". Print Assumptions c19_spec_types_generable.
 Eval vm_compute in "ASSUMPTIONS c19_generated_conforms". Print Assumptions c19_generated_conforms.
 Eval vm_compute in "ASSUMPTIONS c19_plain_structures_unchanged_u2f_requests". Print Assumptions c19_plain_structures_unchanged_u2f_requests.
+Eval vm_compute in "ASSUMPTIONS c19_ctap2_request_generator". Print Assumptions c19_ctap2_request_generator.
+Eval vm_compute in "ASSUMPTIONS c19_request_enums_unchanged". Print Assumptions c19_request_enums_unchanged.
